@@ -303,10 +303,22 @@ def rule_h7(repo, col):
     init = c.methods.get("__init__")
     if init is None:
         raise AnalysisError("Term.__init__ missing")
+    def own_helpers(fnode):
+        """methods of the class called as self.<m>() (no arguments) from fnode: their bodies are read as part of it (inlining bound 1)"""
+        out = []
+        for x in walk_no_nested(fnode):
+            if isinstance(x, ast.Expr) and isinstance(x.value, ast.Call) and not x.value.args and not x.value.keywords and isinstance(x.value.func, ast.Attribute) \
+                    and isinstance(x.value.func.value, ast.Name) and x.value.func.value.id == "self":
+                hname = x.value.func.attr
+                cand = [fd for fd in c.node.body if isinstance(fd, ast.FunctionDef) and (fd.name == hname or (hname.startswith("__") and fd.name == hname))]
+                out.extend(cand)
+        return out
+
     none_init = set()
-    for st in walk_no_nested(init.node):
-        if isinstance(st, ast.Assign) and is_self_attr(st.targets[0]) and isinstance(st.value, ast.Constant) and st.value.value is None:
-            none_init.add(st.targets[0].attr)
+    for scope in [init.node] + own_helpers(init.node):
+        for st in walk_no_nested(scope):
+            if isinstance(st, ast.Assign) and is_self_attr(st.targets[0]) and isinstance(st.value, ast.Constant) and st.value.value is None:
+                none_init.add(st.targets[0].attr)
     # memo -> key attributes read where the memo is computed
     depends = {}
     for name, f in c.methods.items():
@@ -360,7 +372,15 @@ def rule_h7(repo, col):
                 if key not in depends[memo]:
                     continue
                 n += 1
-                ok = all(any(fn == "<store>" and a[0] == "self.%s" % memo and a[1] == "None" for fn, a, _ in p.calls) for p in paths)
+                helper_resets = set()
+                for hd in own_helpers(f.node):
+                    hp = [q for q in dtable.extract(hd, opaque_loops=True) if q.end != "raise"]
+                    common = None
+                    for q in hp:
+                        r_ = set(a[0] for fn, a, _ in q.calls if fn == "<store>" and a[1] == "None")
+                        common = r_ if common is None else (common & r_)
+                    helper_resets |= (common or set())
+                ok = all(any(fn == "<store>" and a[0] == "self.%s" % memo and a[1] == "None" for fn, a, _ in p.calls) for p in paths) or ("self.%s" % memo) in helper_resets
                 col.decide("H7", m, f.node, ok, "%s re-binds self.%s and resets the memo self.%s" % (f.qualname, key, memo),
                            "%s re-binds self.%s but does not reset self.%s, which is computed from it and memoised: after the assignment the term %s" % (
                                f.qualname, key, memo,
